@@ -6,7 +6,9 @@ Proof:  Props/C20.lean over CimbaModel/Mempool/Model.lean (a statement-by-statem
         every page size and every CHUNK_LIST_SIZE the run never faults (expand_ok: no access outside the chunk list)
         and the invariant holds: live objects are pairwise disjoint, 8-aligned, inside their chunk with obj_sz bytes,
         free list and live set partition all slots, stored contents stay until the object is returned.
-Tie:    T-corr harness/pooldrv.c <-> Drivers/PoolMain.lean, exact state of struct cmi_mempool (incl. canonicalised
+Ties:   T-gen  tools/gen_pool.py: size arithmetic and release asserts of cmi_mempool_initialize from the C AST,
+        CHUNK_LIST_SIZE from the preprocessor; Props/C20 proves the model's initPool equal to them.
+        T-corr harness/pooldrv.c <-> Drivers/PoolMain.lean, exact state of struct cmi_mempool (incl. canonicalised
         chunk list and free-list prefix) after every operation, scripts generated against the running model and
         steered across 1 / objects-per-chunk / 63-64-65 / 127-128-129 (/191-193) chunks with interleaved frees,
         dynamic pools, CMI_MEMPOOL_STATIC_INIT pools and the library's own thread-local pools; C side also under
@@ -16,11 +18,14 @@ Tie:    T-corr harness/pooldrv.c <-> Drivers/PoolMain.lean, exact state of struc
 import collections
 import os
 
+import c2lean
+import gen_pool
 import poolcorr
 import vlib
 
 TRUSTED = [
     "Lean 4.33 kernel; axioms propext, Classical.choice, Quot.sound only (audited per theorem on every run)",
+    "tools/c2lean.py + tools/gen_pool.py + clang's JSON AST (translation of the size arithmetic and asserts of cmi_mempool_initialize)",
     "hand-written model CimbaModel/Mempool/Model.lean, tied to src/cmi_mempool.c + cmi_mempool.h by exact-state "
     "differential execution (generator quality bounds what the tie sees)",
     "libc: malloc/aligned_alloc return fresh blocks disjoint from everything live, aligned_alloc(page, n) is page aligned, "
@@ -88,17 +93,24 @@ def run(chk):
                         "obj_sz > 0 and a multiple of 8, obj_num > 0 (release asserts of cmi_mempool_initialize; obj_sz = 0 "
                         "divides by zero in the code and is a Fault in the model)",
                         "cmi_pagesize() is a power of two > 8 (asserted by cmi_aligned_alloc); the run uses %d" % poolcorr.PAGE]
-    # ---- constants the model needs, from the current source ---------------
-    cls = poolcorr.chunk_list_size(impl)
-    chk.cov["generated_from"] = {"file": "src/cmi_mempool.c", "CHUNK_LIST_SIZE": cls}
+    # ---- T-gen: size arithmetic + asserts of cmi_mempool_initialize, CHUNK_LIST_SIZE ---------------
+    tgen_ok, cls = True, None
+    try:
+        info, _ = gen_pool.run(impl)
+        chk.cov["generated_from"] = info
+        cls = info["CHUNK_LIST_SIZE"]
+    except c2lean.Untranslatable as ex:
+        tgen_ok = False
+        chk.log("translator cannot handle the current source: %s" % ex)
+        cls = poolcorr.chunk_list_size(impl)
     # ---- proofs ----------------------------------------------------------
-    proved = chk.prove(extra_targets=["poolmain"])
+    proved = tgen_ok and chk.prove(extra_targets=["poolmain"])
     drivers_ok = True
     if not proved:
         drivers_ok, out = vlib.lake_build(["poolmain"])
         if not drivers_ok:
             chk.build_error = out
-    if cls is None or cls == 0:
+    if not cls:
         chk.violation("tie broken: CHUNK_LIST_SIZE cannot be read from src/cmi_mempool.c (the model takes it as a parameter)",
                       "stream: tools/poolcorr.chunk_list_size\n", False)
         return
@@ -175,15 +187,20 @@ def run(chk):
     if not proved and not chk.violations:
         errs = "\n".join(l for l in getattr(chk, "build_error", "").splitlines() if "error" in l)[:3000]
         probs = "\n".join(getattr(chk, "audit_result", {}).get("problems", []))
-        chk.violation("a theorem of Props/C20.lean no longer checks; %d generated scripts found no input on which the real "
-                      "pool misbehaves" % len(stats), "theorems: CimbaModel.Props.C20.*\n" + errs + "\n" + probs, False)
+        chk.violation("a theorem of Props/C20.lean (or the translation of cmi_mempool_initialize it rests on) no longer checks; "
+                      "%d generated scripts found no input on which the real pool misbehaves" % len(stats),
+                      "theorems: CimbaModel.Props.C20.*\n" + errs + "\n" + probs, False)
 
 
 def replay(chk, path):
     impl = vlib.build_impl("rel")
     san = vlib.build_impl("san")
     cls = poolcorr.chunk_list_size(impl) or 64
-    chk.prove(extra_targets=["poolmain"])
+    try:
+        gen_pool.run(impl)
+        chk.prove(extra_targets=["poolmain"])
+    except c2lean.Untranslatable:
+        vlib.lake_build(["poolmain"])
     c_rel, c_san = vlib.cc_harness("pooldrv", impl), vlib.cc_harness("pooldrv", san)
     lean_exe = vlib.lean_exe("poolmain")
     lines = poolcorr.read_script(path)
